@@ -45,7 +45,7 @@ Definition odd_tok (t : ftok) : bool :=
 
 Inductive dglob := DGUnk | DGOk (ms : list bytes).
 Definition doc_glob (t : tree) (name : list ftok) : dglob :=
-  if existsb odd_tok name || has_dotdot (fmeant name) || negb (beq (clean (fvalue name)) (fvalue name)) then DGUnk
+  if existsb odd_tok name || has_dotdot (fvalue name) || negb (beq (clean (fvalue name)) (fvalue name)) then DGUnk
   else
     let '(dts, bts) := split_last_slash name [] [] in
     match bts with
